@@ -26,7 +26,24 @@ Foreign text: rules the session does not own carry arbitrary bytes in their comm
 present before the session and (nat, tproxy) appear while it runs — a foreign command
 applied at STARTED.  The real ipt_chain_exists is also run directly on random tables
 and compared with chain_in_output / chain_in_listing and with plain membership; its
-decode mode is pinned by a fail-closed ast check (codec ASCII, errors='replace')."""
+decode mode is pinned by a fail-closed ast check (codec ASCII, errors='replace').
+
+Environment outside the packet filter (coverage-gap review): the helper's stdin may END WITH A READ ERROR instead of
+EOF (ECONNRESET of the socketpair when the client died with unread data), the write / flush of STARTED may fail
+(EPIPE), rewrite_etc_hosts may fail for a HOST line or at restore, the REAL flush_systemd_dns_cache runs against a
+simulated `which` / resolvectl (absent, present, non-zero exit, failing to start in the try block or in the finally
+block), UDP is asked of a method that refuses it, the method is chosen by the REAL get_auto_method / refused by the
+REAL is_supported against a simulated PATH.  All of these are compared with the extracted session_e (Model/FwEnv.v,
+theorems c04_wait_phase_invisible, c04_started_failure_is_cut, c04_read_error_is_eof) and go through the C04 oracles.
+
+Signals (harness/props/c04_sig.py): the REAL setup_daemon and firewall.main run in a forked child whose stdin/stdout
+is a real socketpair and whose stderr is a real pipe; the parent plays the client and the kernel (every command of
+the child is answered by the same kernel model), and sends REAL SIGHUP / SIGPIPE / SIGINT / SIGTERM at chosen
+moments (before GO, at the k-th command of set-up, while waiting, at the k-th command of tear-down), lets the client
+die (channel closed with or without unread data, terminal hang-up, stderr reader gone) and checks that the helper is
+never killed by a signal, relays SIGINT/SIGTERM as SIGINT to the pid named in GO, terminates once the channel is
+closed, issues the same commands as the signal-free in-process run, and leaves the packet filter as the C04 oracles
+demand."""
 import ast
 import copy
 import errno
@@ -38,6 +55,9 @@ import subprocess
 import sys
 from socket import AF_INET, AF_INET6
 
+sys.path.insert(0, os.path.dirname(os.path.abspath(__file__)))
+import c04_sig  # noqa: E402
+
 PROP = "C04"
 RULE = ("sessions = method (nat, nft, tproxy, pf on FreeBSD/OpenBSD/Darwin) x plan (0-4 subnets and 0-2 name servers per family, "
         "with/without UDP (tproxy), user/group (nat)) x initial kernel state (empty, foreign rules and chains, a second instance "
@@ -47,7 +67,14 @@ RULE = ("sessions = method (nat, nft, tproxy, pf on FreeBSD/OpenBSD/Darwin) x pl
         "instance's chains, legal foreign chain names: Latin-1 and other bytes that are not UTF-8, lone continuation bytes, overlong / "
         "surrogate / out-of-range sequences, valid 2-4 byte UTF-8, control characters, the text of an own chain's header on the same line) "
         "x foreign change while the session runs (nat, tproxy: a comment rule of each text class appended/inserted after STARTED into a "
-        "chain of the table listed at tear-down, and of another table; with cuts and tear-down command faults); "
+        "chain of the table listed at tear-down, and of another table; with cuts and tear-down command faults) "
+        "x environment outside the packet filter (stdin ending with a read error of 5 OSError classes or a non-OSError class at section "
+        "boundaries and inside the wait loop; write / flush of STARTED failing; rewrite_etc_hosts failing at each HOST line and at restore; "
+        "resolvectl / systemd-resolve absent, present, exiting non-zero, failing to start or to be waited for in the try block and in the "
+        "finally block; UDP asked of nat / nft / pf; `auto` and explicit methods against PATHs with and without their programs) "
+        "x signals (real helper process: SIGHUP, SIGPIPE, SIGINT, SIGTERM and pairs of them before GO, at sampled / thorough: every command "
+        "of set-up and tear-down, while waiting; the client dying at those moments with and without unread output, terminal hang-up, dead "
+        "stderr; -v 0..2; setsid refused; with a failing command; the client's pid gone when the helper is signalled); "
         "a case is non-trivial when at least one external command was issued or the cut fell inside the dialogue; distinct by content hash")
 TRUSTED_BASE = [
     "modelled, not verified: iptables/ip6tables/nft/pfctl command semantics of coq/Model/FwLife.v (DESIGN Appendix B): -N fails if the chain exists, -F empties, -X fails if absent/non-empty/referenced, -I c 1 prepends, -A appends, -D removes the first equal rule, -nL prints one 'Chain <name> (' header per chain; nft add table/chain idempotent, delete table removes everything; pf anchors replaced atomically, -e/-d fail when already in that state, Darwin -E/-X reference tokens, kldload fails when loaded; a failing command has no effect",
@@ -56,13 +83,16 @@ TRUSTED_BASE = [
     "no rule text contains a line feed: iptables accepts one inside --comment and prints it verbatim, which forges listing lines (finding F90; the session model tests the listing line by line, c04_output_lines / c04_chain_exists_bytes_exact relate that to the raw bytes under tbl_nolf); no NUL bytes (C strings)",
     "pf cannot be validated against a real kernel on this image (no BSD): pfctl -f replacing the main ruleset, kldunload discarding all pf state",
     "a foreign change while the session runs is ONE command of another tool applied to the kernel model at the moment the helper writes STARTED (appending/inserting a comment rule into a chain the session does not own); the model's session has no such event: the harness compares the session's own commands with the event-free model run and the final state with the model's final state plus that command",
-    "harness: monkey-patched sshuttle.linux.ssubprocess / pf.ssubprocess (call, check_output, Popen: the real pf.pfctl runs) / pf.ioctl / pf.pf_get_dev / firewall.setup_daemon / flush_systemd_dns_cache / rewrite_etc_hosts (recorder) / Method.is_supported; set-up/restore entry points wrapped to record phase marks; sys.stdout / sys.stderr replaced by recording streams that raise the injected exception",
+    "harness, in-process runs: monkey-patched sshuttle.linux.ssubprocess / pf.ssubprocess (call, check_output, Popen: the real pf.pfctl runs) / firewall.ssubprocess (Popen + wait of the resolver-cache flush: the real flush_systemd_dns_cache runs) / pf.ioctl / pf.pf_get_dev / firewall.setup_daemon (scripted stdin and stdout, either of which can raise) / rewrite_etc_hosts (recorder that can raise) / helpers.which and the methods' `which` (a simulated PATH, silent: the real one logs at debug2; the real is_supported and get_auto_method run) / the name `os` in sshuttle.firewall (real module; _exit ends the simulated helper instead of the check); set-up/restore entry points wrapped to record phase marks; sys.stdout / sys.stderr replaced by recording streams that raise the injected exception",
+    "harness, signal runs (c04_sig.py): the helper is a forked child of the check running the REAL setup_daemon (signal dispositions, setsid) and firewall.main on a real socketpair (stdin/stdout) and a real pipe (stderr) with real sys.std* objects; before main runs the child restores the dispositions of a freshly started CPython (SIGINT -> KeyboardInterrupt, SIGTERM/SIGHUP default, SIGPIPE ignored BY THE INTERPRETER — so line firewall.py:106 cannot be told from its absence, as in a real helper); every external command is answered by the parent's kernel model over a pipe; the name `os` in sshuttle.firewall is a proxy that delivers kill() only if it is SIGINT for the check's own pid or aims at a pid above PID_MAX_LIMIT (the kernel then answers ESRCH: 'the client is gone') and records everything else without delivering it; the client is played by the check itself (it closes the channel when it receives the relayed SIGINT, as client.py's finally block does; it 'dies' by closing the channel, with SIGHUP to the helper for the terminal going away and by closing the read end of the stderr pipe); a signal 'at command k' is sent while the child is blocked waiting for the answer to its k-th command, which the kernel model then still executes",
+    "Model/FwEnv.v (session_e): read errors, STARTED write failures, hosts-file failures and resolver-flush failures are OUTCOMES given to the model; which exception classes a socket / pipe / file really raises is not modelled (any class is allowed; `except IOError` = subclass of OSError)",
     "logging: a stream operation either succeeds or raises an instance of a built-in exception class (Model/FwLog.v lists Exception and 35 built-in classes below it; single inheritance, compared with issubclass on every pair; sshuttle's own Fatal is never raised by a stream); every sys.stdout.flush() on this code path is the first statement of a helpers.log call (used to delimit log calls); verbosity 3 (debug3) is not exercised",
 ]
 ASSUMPTIONS = [
     "a failing external command changes nothing (no partial effect) and at most the injected commands fail",
     "no other process changes the packet filter while the session runs (the other instance's objects are present but static) — except, in the harness, one foreign rule added between STARTED and the tear-down (nat, tproxy)",
-    "the kernel answers SIGKILL of the client / a closed control channel as EOF on the helper's stdin (modelled as a cut)",
+    "the kernel answers SIGKILL of the client / a closed control channel as EOF on the helper's stdin (modelled as a cut) — or, when the client died with unread helper output, as ECONNRESET (Model/FwEnv.v CErr; produced for real on the socketpair of the signal runs); SIGTERM/SIGHUP of the client = the same plus SIGHUP / EPIPE / EIO for the helper when terminal and stderr go with it",
+    "signals reach the helper only at the moments the signal runs choose (Python-level handlers run between bytecodes or on EINTR of a blocking call); a handler interrupting helpers.log in the middle of a stderr write (re-entrant BufferedWriter) is not produced",
     "body rules of a plan only jump to built-in targets or, for tproxy's tproxy chain, to the divert chain (checked on every generated plan)",
     "the general theorems c04_nat_all_exits / c04_tproxy_all_exits / c04_nft_all_exits (every plan body, every initial kernel state, every k, every cut) assume: "
     "chain names without blanks and built-in OUTPUT/PREROUTING present in every iptables table (kst_wf), ports printed in 7-bit ASCII without blanks (pname_ok: they are decimal numbers, so the chain names the helper looks for are ASCII), the initial state holds "
@@ -249,8 +279,21 @@ class LogStream:
 class World:
     """the simulated boundary for one run of firewall.main"""
 
-    def __init__(self, kernel, faults, snapshots=False, log=None, event=None):
+    def __init__(self, kernel, faults, snapshots=False, log=None, event=None, env=None):
         self.k = kernel
+        # what is outside the packet filter (see run_real): {"programs": [...], "resolver": {"tool", "rv": {"setup","teardown"},
+        #   "raise": [phase, "popen"|"wait", cls]}, "read_error": cls, "started_error": ["write"|"flush", cls],
+        #   "hosts_error": ["loop", cls, k] | ["restore", cls]}
+        self.env = env or {}
+        self.programs = set(self.env.get("programs", DEFAULT_PROGRAMS))
+        tool = (self.env.get("resolver") or {}).get("tool")
+        if tool:
+            self.programs.add(tool)
+        self.hosts_calls = 0
+        self.flush_log = []       # (phase, argv) of every resolver-cache flush command
+        self.which_asked = []
+        self.ready = None         # the method name of the READY line
+        self.dead = False         # os._exit was called
         # a foreign tool changes the packet filter while the session runs: argv (hex tokens) of ONE command applied to the
         # kernel when the helper reports STARTED; it is not a command of the session (no fault index, not in the trace)
         self.event = event
@@ -301,6 +344,8 @@ class World:
             raise make_exc(lf["cls"])
 
     def external(self, argv, stdin=b"", countable=True):
+        if self.dead:             # the helper process has ended (os._exit): nothing it "does" afterwards happens
+            return 1, b"", b""
         argv = [a.encode() if isinstance(a, str) else a for a in argv]
         fault = countable and self.n in self.faults
         if countable:
@@ -317,6 +362,33 @@ class World:
             self.ops_started = (self.ops, self.ops_all)
             if self.event:
                 self.event_rc = self.k.cmd([unhx(x) for x in self.event])[0]
+
+
+DEFAULT_PROGRAMS = ("iptables", "ip6tables", "nft", "pfctl")
+
+
+class FlushShim:
+    """stands for the `subprocess` module inside sshuttle.firewall (flush_systemd_dns_cache, firewall.py:162-190)"""
+    PIPE = subprocess.PIPE
+
+    def __init__(self, shim):
+        self.shim = shim
+
+    def Popen(self, argv, stdout=None, env=None, **kw):
+        w = self.shim.world
+        phase = "teardown" if any(t.startswith("M:restore") for t in w.trace) else "setup"
+        w.flush_log.append((phase, list(argv)))
+        r = w.env.get("resolver") or {}
+        rs = r.get("raise")
+        if rs and rs[0] == phase and rs[1] == "popen":
+            raise make_exc(rs[2])
+
+        class Proc:
+            def wait(self):
+                if rs and rs[0] == phase and rs[1] == "wait":
+                    raise make_exc(rs[2])
+                return (r.get("rv") or {}).get(phase, 0)
+        return Proc()
 
 
 class SubprocessShim:
@@ -364,12 +436,25 @@ def load_real():
     import sshuttle.methods.nft as m_nft
     import sshuttle.methods.tproxy as m_tproxy
     import sshuttle.methods.pf as m_pf
+    import sshuttle.methods.ipfw as m_ipfw
     shim = SubprocessShim()
     linux.ssubprocess = shim
     m_pf.ssubprocess = shim
+    firewall.ssubprocess = FlushShim(shim)
     L = _LOADED
     L.update(helpers=helpers, firewall=firewall, linux=linux, nat=m_nat, nft=m_nft, tproxy=m_tproxy, pf=m_pf, shim=shim,
-             pf_context0=copy.deepcopy(m_pf._pf_context))
+             pf_context0=copy.deepcopy(m_pf._pf_context), setup_daemon0=firewall.setup_daemon,
+             rewrite_etc_hosts0=firewall.rewrite_etc_hosts, pf0=m_pf.pf)
+
+    def fake_which(name, *a, **k):
+        """the PATH look-up (helpers.which -> shutil.which): answered from the simulated PATH; silent (the real one
+        logs at debug2)"""
+        w = shim.world
+        w.which_asked.append(name)
+        return ("/usr/sbin/" + name) if name in w.programs else None
+    helpers.which = fake_which
+    for mod in (m_nat, m_nft, m_tproxy, m_pf, m_ipfw):
+        mod.which = fake_which
 
     def fake_ioctl(dev, req, buf):
         pfo = m_pf.pf
@@ -384,11 +469,9 @@ def load_real():
 
     m_pf.ioctl = fake_ioctl
     m_pf.pf_get_dev = lambda: 99
-    firewall.flush_systemd_dns_cache = lambda: None
 
     for mod in (m_nat, m_nft, m_tproxy, m_pf):
         cls = mod.Method
-        cls.is_supported = lambda self: True
         orig_setup, orig_restore = cls.setup_firewall, cls.restore_firewall
 
         def setup(self, port, dnsport, nslist, family, *a, _o=orig_setup):
@@ -410,36 +493,114 @@ def load_real():
 class Out:
     def __init__(self, world):
         self.world = world
+        self.pending_started = False
 
     def write(self, b):
+        if b.startswith(b"READY "):
+            self.world.ready = b[6:].rstrip(b"\n").decode("latin-1")
         if b == b"STARTED\n":
             self.world.mark("started")
+            self.pending_started = True
+            e = self.world.env.get("started_error")
+            if e and e[0] == "write":
+                raise make_exc(e[1])
 
     def flush(self):
-        pass
+        if self.pending_started:
+            self.pending_started = False
+            e = self.world.env.get("started_error")
+            if e and e[0] == "flush":
+                raise make_exc(e[1])
 
 
-def run_real(kernel, method, state_enc, data, faults, snapshots=False, log=None, event=None):
+class In:
+    """the helper's stdin: the bytes of `data`, then EOF — or, with env read_error, an exception of readline (a buffered
+    reader that meets the error while looking for the end of a line raises without handing out the partial line)"""
+
+    def __init__(self, data, err):
+        self.f, self.err = io.BytesIO(data), err
+
+    def readline(self, *a):
+        line = self.f.readline(*a)
+        if self.err and not line.endswith(b"\n"):
+            raise make_exc(self.err)
+        return line
+
+
+class HelperExit(BaseException):
+    """os._exit called by the helper (in-process runs): the process is gone, no finally block runs"""
+
+
+class InProcOs:
+    """the name `os` inside sshuttle.firewall for in-process runs: the real module, except that _exit ends the simulated
+    helper process (everything it would still do is without effect) instead of the check"""
+
+    def __init__(self, world):
+        self._w = world
+
+    def __getattr__(self, name):
+        return getattr(os, name)
+
+    def _exit(self, code=0):
+        self._w.dead = True
+        raise HelperExit(code)
+
+
+def prepare_method(L, method):
+    """-> the name firewall.main is given; installs the pf flavour and a fresh pf context"""
+    pfm = L["pf"]
+    name = method
+    if method.startswith("pf-"):
+        name = "pf"
+        pfm.pf = {"pf-freebsd": pfm.FreeBsd, "pf-openbsd": pfm.OpenBsd, "pf-darwin": pfm.Darwin, "pf-pfsense": pfm.PfSense}[method]()
+        pfm._pf_context.clear()
+        pfm._pf_context.update(copy.deepcopy(L["pf_context0"]))
+    return name
+
+
+def hosts_recorder(w):
+    """stands for rewrite_etc_hosts (C14's subject): records the restore, raises what env hosts_error says"""
+    def hosts(hostmap, port):
+        he = w.env.get("hosts_error")
+        if not hostmap:
+            w.mark("hosts")
+            if he and he[0] == "restore":
+                raise make_exc(he[1])
+        else:
+            k = w.hosts_calls
+            w.hosts_calls += 1
+            if he and he[0] == "loop" and he[2] == k:
+                raise make_exc(he[1])
+    return hosts
+
+
+def fin_at_of(trace, n):
+    fin_at = 0
+    for t in trace:
+        if t.startswith("M:restore"):
+            return fin_at
+        if not t.startswith("M:") and not t.split(":")[1].startswith(hx(b"ioctl-add-anchor")):
+            fin_at += 1
+    return n
+
+
+def run_real(kernel, method, state_enc, data, faults, snapshots=False, log=None, event=None, env=None, invoke=None):
     """method: nat|nft|tproxy|pf-freebsd|pf-openbsd|pf-darwin; data: the bytes the helper can read;
-    log: the logging environment (see World); event: a foreign command applied at STARTED (see World).
+    log: the logging environment (see World); event: a foreign command applied at STARTED (see World);
+    env: what is outside the packet filter (see World); invoke: the method name firewall.main is given instead of
+    the plan's ("auto").
     returns dict(outcome, trace, final, fin_at, snaps, nlog, log_fired, ...)"""
     L = load_real()
     fw, pfm = L["firewall"], L["pf"]
     kernel.set(state_enc)
-    w = World(kernel, faults, snapshots, log, event)
+    w = World(kernel, faults, snapshots, log, event, env)
     L["shim"].world = w
-    name = method
-    if method.startswith("pf-"):
-        name = "pf"
-        pfm.pf = {"pf-freebsd": pfm.FreeBsd, "pf-openbsd": pfm.OpenBsd, "pf-darwin": pfm.Darwin}[method]()
-        pfm._pf_context.clear()
-        pfm._pf_context.update(copy.deepcopy(L["pf_context0"]))
-    fw.setup_daemon = lambda: (io.BytesIO(data), Out(w))
-
-    def hosts(hostmap, port):
-        if not hostmap:
-            w.mark("hosts")
-    fw.rewrite_etc_hosts = hosts
+    name = prepare_method(L, method)
+    if invoke:
+        name = invoke
+    fw.setup_daemon = lambda: (In(data, w.env.get("read_error")), Out(w))
+    fw.rewrite_etc_hosts = hosts_recorder(w)
+    fw.os = InProcOs(w)
     old_err, old_out = sys.stderr, sys.stdout
     sys.stderr = LogStream(w, "err")
     sys.stdout = LogStream(w, "out")
@@ -454,25 +615,23 @@ def run_real(kernel, method, state_enc, data, faults, snapshots=False, log=None,
         except Exception as e:       # noqa
             outcome = "CRASH"
             crash = repr(e)
+        except BaseException as e:       # noqa  SystemExit / KeyboardInterrupt / os._exit: the helper ended itself
+            outcome = "EXITED"
+            crash = repr(e)
     finally:
         sys.stderr, sys.stdout = old_err, old_out
         L["helpers"].verbose = 0
-    fin_at = 0
-    for t in w.trace:
-        if t.startswith("M:restore"):
-            break
-        if not t.startswith("M:") and not t.split(":")[1].startswith(hx(b"ioctl-add-anchor")):
-            fin_at += 1
-    else:
-        fin_at = w.n
+        fw.os = os
+    fin_at = fin_at_of(w.trace, w.n)
     py = ""
-    if name == "pf":
+    if method.startswith("pf-"):
         c = pfm._pf_context
         py = "%d,%d,%s" % (c["started_by_sshuttle"], 1 if c["loaded_by_sshuttle"] else 0, ".".join(hx(t) for t in c["Xtoken"]))
     return {"outcome": outcome, "trace": w.trace, "final": kernel.get(), "ncmds": w.n, "fin_at": fin_at,
             "snaps": w.snap, "py": py, "crash": crash, "nlog": w.calls, "log_fired": w.fired, "log_nfired": w.nfired,
             "log_ops": w.ops, "log_ops_all": w.ops_all, "ops_started": w.ops_started, "log_anomaly": w.anomaly,
-            "log_fired_after_started": w.fired_after_started, "event_rc": w.event_rc}
+            "log_fired_after_started": w.fired_after_started, "event_rc": w.event_rc,
+            "ready": w.ready, "flush_log": w.flush_log, "which_asked": w.which_asked}
 
 
 # ---------------------------------------------------------------- plans and dialogues
@@ -482,7 +641,7 @@ class Plan:
         self.sub6, self.sub4, self.ns6, self.ns4 = sub6, sub4, ns6, ns4
         self.udp, self.user, self.group, self.hosts, self.bogus = udp, user, group, hosts, bogus
 
-    def header(self):
+    def header(self, pid=12345):
         ls = ["ROUTES"]
         for (w, ex, ip, fp, lp) in self.sub6:
             ls.append("%d,%d,%d,%s,%d,%d" % (AF_INET6, w, ex, ip, fp, lp))
@@ -491,7 +650,7 @@ class Plan:
         ls.append("NSLIST")
         ls += ["%d,%s" % (AF_INET6, ip) for ip in self.ns6] + ["%d,%s" % (AF_INET, ip) for ip in self.ns4]
         ls.append("PORTS %d,%d,%d,%d" % (self.p6, self.p4, self.p6 + 2 if self.p6 else 0, self.p4 + 3 if self.p4 else 0))
-        ls.append("GO %d %s %s 0x01 12345" % (1 if self.udp else 0, self.user or "-", self.group or "-"))
+        ls.append("GO %d %s %s 0x01 %d" % (1 if self.udp else 0, self.user or "-", self.group or "-", pid))
         return ls
 
     def tail(self):
@@ -501,8 +660,8 @@ class Plan:
             ls.append("HOST never,10.9.8.99")
         return ls
 
-    def lines(self):
-        return self.header() + self.tail()
+    def lines(self, pid=12345):
+        return self.header(pid) + self.tail()
 
     def data(self, cut):
         return "".join(l + "\n" for l in self.lines()[:cut]).encode()
@@ -877,6 +1036,8 @@ def _correspondence(ctx, rng, quick, kern):
     pendingL = []         # (SESSIONL line, real observation, case info): runs compared with the model WITH log points
     pendingE = []         # (model line, real observation, case info): runs with a foreign change while the session runs
     orng = random.Random("C04-odd-bytes-%d" % ctx.seed)   # free text / foreign events: own stream, same seed
+    grng = random.Random("C04-environment-%d" % ctx.seed)  # environment outside the packet filter, signals: own stream
+    pendingV = []         # (SESSIONE line, real observation, case info): runs compared with session_e (Model/FwEnv.v)
 
     def one(plan, bodies, cut, faults, st_enc, kind, snapshots=False):
         real = run_real(kern, plan.method, st_enc, plan.data(cut), faults, snapshots)
@@ -904,8 +1065,12 @@ def _correspondence(ctx, rng, quick, kern):
                 st0["pf"]["skip"] = rng.random() < 0.4
                 if method == "pf-freebsd":
                     st0["pf"]["loaded"] = skind >= 2 or rng.random() < 0.6
+                    if pi == 0:
+                        st0["pf"]["loaded"] = False      # every run: kldload succeeds, the module is unloaded again (pf.py:182-194)
                     if not st0["pf"]["loaded"]:
                         st0["pf"].update(on=False, anchors=[], calls=[], skip=False)
+                elif pi == 1:
+                    st0["pf"]["skip"] = True             # every run: `set skip on lo` in force on OpenBSD and Darwin (pf.py:277-278, 357-358)
             st_enc = enc_state(st0)
             if skind >= 2:
                 q = p * 10 if p < 6000 else p + 1
@@ -950,6 +1115,9 @@ def _correspondence(ctx, rng, quick, kern):
             log_dimension(ctx, rng, quick, kern, plan, bodies, st_enc, base, pending, pendingL, pi)
             if method in ("nat", "tproxy"):
                 event_dimension(ctx, orng, quick, kern, plan, bodies, st_enc, base, pendingE)
+            env_dimension(ctx, grng, quick or pi >= 6, kern, plan, bodies, st_enc, base, pending, pendingV, pi)
+            if pi == 0 or (not quick and pi < 3):
+                c04_sig.signal_dimension(ctx, sys.modules[__name__], grng, quick, kern, plan, bodies, st_enc, base)
 
     log_correspondence(ctx)
     listing_correspondence(ctx, orng, quick, kern)
@@ -1022,11 +1190,28 @@ def _correspondence(ctx, rng, quick, kern):
                           "trace_at": m["trace"][first:first + 3] if first is not None else None, "final": exp[:300]})
         pending.append((line, line, real, info))       # the oracles below apply (against the state incl. the foreign change)
 
+    # ---- sessions under an environment outside the packet filter, against session_e (Model/FwEnv.v)
+    outsV = ctx.run_driver([p[0] for p in pendingV])
+    for (line, real, info), out in zip(pendingV, outsV):
+        m = parse_session(out)
+        pf = info["plan"]["method"].startswith("pf")
+        ctx.count("env_runs_compared_with_session_e")
+        if obs(real, pf) != obs(m, pf):
+            first = next((i for i, (x, y) in enumerate(zip(real["trace"] + ["<end>"], m["trace"] + ["<end>"])) if x != y), None)
+            ctx.disagree("session under an environment outside the packet filter (session_e): outcome / trace / final state",
+                         {k: info.get(k) for k in ("plan", "cut", "faults", "kind", "env")},
+                         {"outcome": real["outcome"], "crash": real["crash"], "ncmds": real["ncmds"], "first_diff_at": first,
+                          "trace_at": real["trace"][first:first + 3] if first is not None else None, "final": real["final"][:300]},
+                         {"outcome": m["outcome"], "ncmds": m["ncmds"],
+                          "trace_at": m["trace"][first:first + 3] if first is not None else None, "final": m["final"][:300]})
+        pending.append((line, line, real, info))
+
     # ---- oracles on the implementation alone
     for (l1, l2, real, info) in pending:
         plan = plan_from_dict(info["plan"])
         ncmd = real["ncmds"]
-        ctx.case((plan.desc(), info["cut"], tuple(info["faults"]), info["state"], repr(info.get("log")), repr(info.get("event"))),
+        ctx.case((plan.desc(), info["cut"], tuple(info["faults"]), info["state"], repr(info.get("log")), repr(info.get("event")),
+                  repr(info.get("env")), info.get("invoke")),
                  nontrivial=bool(ncmd) or 0 < info["cut"] < len(plan.header()),
                  sample={"plan": plan.desc(), "kind": info["kind"], "cut": info["cut"], "faults": info["faults"],
                          "outcome": real["outcome"], "commands": ncmd, "trace_head": real["trace"][:4]}
@@ -1035,6 +1220,153 @@ def _correspondence(ctx, rng, quick, kern):
     ctx.programs = len(pending)
     ctx.extra["exhaustive"] = not quick
     ctx.notes.append("every cut position and (thorough: every; quick: up to 70 per plan) single fault index of each generated plan was run")
+
+
+# ---------------------------------------------------------------- the environment outside the packet filter
+def env_fields(env):
+    """the environment as the driver's SESSIONE takes it (Model/FwEnv.v wenv)"""
+    rs = (env.get("resolver") or {}).get("raise")
+    se, he = env.get("started_error"), env.get("hosts_error")
+    return " ".join([env.get("read_error") or "eof",
+                     rs[2] if rs and rs[0] == "setup" else "-",
+                     se[1] if se else "-",
+                     str(he[2]) if he and he[0] == "loop" else "-",
+                     "1" if he and he[0] == "restore" else "0",
+                     "1" if rs and rs[0] == "teardown" else "0"])
+
+
+def sessionE_line(plan, bodies, cut, faults, st_enc, env):
+    return "SESSIONE %s %s %d %s %s" % (env_fields(env), cfg_fields(plan, bodies, True), cut,
+                                        ",".join(str(k) for k in sorted(faults)) or "-", st_enc)
+
+
+def env_note(env):
+    out = []
+    if env.get("read_error"):
+        out.append("the helper's stdin ends with %s instead of EOF" % env["read_error"])
+    if env.get("started_error"):
+        out.append("stdout.%s of STARTED raises %s" % tuple(env["started_error"]))
+    he = env.get("hosts_error")
+    if he:
+        out.append("rewrite_etc_hosts raises %s %s" % (he[1], "at restore" if he[0] == "restore" else "for HOST line #%d" % he[2]))
+    r = env.get("resolver")
+    if r:
+        out.append("PATH has %s, exit codes %r%s" % (r.get("tool"), r.get("rv") or {},
+                                                     (", %s raises %s during %s" % (r["raise"][1], r["raise"][2], r["raise"][0])) if r.get("raise") else ""))
+    if "programs" in env:
+        out.append("PATH has only %s" % (", ".join(sorted(env["programs"])) or "nothing"))
+    return "; ".join(out)
+
+
+def hosts_reached(plan, cut, env):
+    """HOST lines whose name the helper put into its map (the restore of the hosts file is due iff > 0)"""
+    n = min(plan.hosts, max(0, cut - len(plan.header())))
+    env = env or {}
+    rs = (env.get("resolver") or {}).get("raise")
+    if env.get("started_error") or (rs and rs[0] == "setup"):
+        return 0
+    he = env.get("hosts_error")
+    if he and he[0] == "loop":
+        n = min(n, he[2] + 1)
+    return n
+
+
+def env_dimension(ctx, rng, quick, kern, plan, bodies, st_enc, base, pending, pendingV, pi):
+    """sessions of `plan` whose exits come from outside the packet filter: read error instead of EOF, failing STARTED
+    write, failing hosts-file update, the resolver-cache flush, UDP asked of a method that refuses it, the method
+    found by get_auto_method / refused by is_supported.  Compared with session_e / session; C04 oracles apply."""
+    pf = plan.method.startswith("pf")
+    plan = copy.copy(plan)
+    plan.hosts, plan.bogus = 2, False            # two HOST lines, then EOF
+    nl, nh = len(plan.lines()), len(plan.header())
+    N, fin_at = base["ncmds"], base["fin_at"]
+    td = list(range(fin_at, N))
+
+    def go(cut, faults, env, kind):
+        real = run_real(kern, plan.method, st_enc, plan.data(cut), faults, snapshots=(kind == "env-started"), env=env)
+        info = {"plan": plan.as_dict(), "cut": cut, "faults": sorted(faults), "state": st_enc, "kind": kind, "env": env}
+        pendingV.append((sessionE_line(plan, bodies, cut, faults, st_enc, env), real, info))
+        ctx.count("env_runs")
+        ctx.count(kind.replace("-", "_"))
+        return real
+
+    def tdf():
+        return [rng.choice(td)] if td and rng.random() < 0.4 else []
+    io_classes = ["ConnectionResetError", "OSError", "TimeoutError", "BrokenPipeError", "ConnectionAbortedError"]
+    # (a) the channel ends with a read error: at every section boundary and inside the wait loop
+    cuts = sorted(set([0, nh, nl] + [rng.randrange(1, nh) for _ in range(1 if quick else 4)] + [rng.randint(nh, nl)]))
+    for cut in (cuts if quick else range(nl + 1)):
+        go(cut, tdf() if cut >= nh else [], {"read_error": rng.choice(io_classes)}, "env-read-error")
+    go(rng.choice([0, rng.randrange(1, nh), nl]), [], {"read_error": rng.choice(["ValueError", "RuntimeError", "EOFError"])},
+       "env-read-error-not-an-ioerror")
+    # (b) the client is gone when STARTED is written
+    for how in ("write", "flush"):
+        for cls in (rng.sample(io_classes, 2) if quick else io_classes):
+            go(nl, tdf(), {"started_error": [how, cls]}, "env-started")
+    go(nl, [], {"started_error": [rng.choice(["write", "flush"]), rng.choice(["ValueError", "RuntimeError"])]}, "env-started-not-an-ioerror")
+    # (c) the hosts file cannot be rewritten
+    for k in range(plan.hosts):
+        go(nl, tdf(), {"hosts_error": ["loop", rng.choice(["OSError", "PermissionError", "UnicodeDecodeError", "FileNotFoundError"]), k]},
+           "env-hosts-update-fails")
+    go(nl, tdf(), {"hosts_error": ["restore", rng.choice(["OSError", "PermissionError", "UnicodeDecodeError"])]}, "env-hosts-restore-fails")
+    go(nh + 1, [], {"hosts_error": ["restore", "OSError"], "read_error": "ConnectionResetError"}, "env-hosts-restore-fails")
+    # (d) flush_systemd_dns_cache against a simulated PATH / resolvectl
+    for tool in ("resolvectl", "systemd-resolve"):
+        r = go(nl, [], {"resolver": {"tool": tool, "rv": {"setup": 0, "teardown": 0}}}, "env-resolver-present")
+        want = ["resolvectl", "flush-caches"] if tool == "resolvectl" else ["systemd-resolve", "--flush-caches"]
+        if r["flush_log"] != ([("setup", want)] if "M:started" in r["trace"] else []) + [("teardown", want)]:
+            ctx.disagree("flush_systemd_dns_cache: commands", {"tool": tool, "plan": plan.desc(), "trace": [t for t in r["trace"] if t.startswith("M:")]},
+                         r["flush_log"], "once after a completed set-up, once in the finally block")
+    go(nl, tdf(), {"resolver": {"tool": "resolvectl", "rv": {"setup": rng.choice([1, 127]), "teardown": rng.choice([0, 1])}}}, "env-resolver-exit-code")
+    for phase in ("setup", "teardown"):
+        for how in ("popen", "wait"):
+            go(nl, tdf(), {"resolver": {"tool": rng.choice(["resolvectl", "systemd-resolve"]), "rv": {},
+                                         "raise": [phase, how, rng.choice(["OSError", "FileNotFoundError", "PermissionError", "BlockingIOError"])]}},
+               "env-resolver-raises-in-%s" % phase)
+    # (e) UDP asked of a method that refuses it (nat.py:21-22,89-90; nft.py:17-18,91-92; pf.py:456-457,481-482)
+    if plan.method != "tproxy":
+        p3 = copy.copy(plan)
+        p3.udp = True
+        for cut in (nl, nh):
+            real = run_real(kern, p3.method, st_enc, p3.data(cut), [])
+            pending.append((session_line(p3, bodies, cut, [], st_enc, True), session_line(p3, bodies, cut, [], st_enc, False), real,
+                            {"plan": p3.as_dict(), "cut": cut, "faults": [], "state": st_enc, "kind": "udp-refused"}))
+            ctx.count("udp_refused_runs")
+            # (what the run leaves behind is judged by the oracles below; that it refuses at once, by the model comparison)
+    # (g) pfSense = FreeBSD with another layout of the ioctl structure (pf.py:369-374): the same sessions, the same model
+    if plan.method == "pf-freebsd":
+        for cut, faults in ((nl, []), (rng.randint(nh, nl), tdf()), (nl, [rng.randrange(N)] if N else [])):
+            real = run_real(kern, "pf-pfsense", st_enc, plan.data(cut), faults)
+            pending.append((session_line(plan, bodies, cut, faults, st_enc, True), session_line(plan, bodies, cut, faults, st_enc, False), real,
+                            {"plan": plan.as_dict(), "cut": cut, "faults": sorted(faults), "state": st_enc, "kind": "pfsense"}))
+            ctx.count("pfsense_runs")
+    # (f) the method is chosen by the real get_auto_method / refused by the real is_supported, against a simulated PATH
+    needs = {"nat": ["iptables"], "nft": ["nft"], "tproxy": ["iptables", "ip6tables"], "pf": ["pfctl"]}
+    short = "pf" if pf else plan.method
+    if short != "tproxy":
+        progs = {"nat": list(DEFAULT_PROGRAMS), "nft": ["nft", "pfctl", "ip6tables"], "pf": ["pfctl", "ip6tables"]}[short]
+        for cut, faults in ((nl, []), (nl, tdf()), (rng.randint(nh, nl), [rng.randrange(N)] if N else [])):
+            env = {"programs": progs}
+            real = run_real(kern, plan.method, st_enc, plan.data(cut), faults, env=env, invoke="auto")
+            info = {"plan": plan.as_dict(), "cut": cut, "faults": sorted(faults), "state": st_enc, "kind": "auto", "env": env, "invoke": "auto"}
+            pending.append((session_line(plan, bodies, cut, faults, st_enc, True), session_line(plan, bodies, cut, faults, st_enc, False), real, info))
+            ctx.count("auto_method_runs")
+            if real["ready"] != short:
+                ctx.disagree("get_auto_method: method announced in READY", {"PATH": progs}, real["ready"], short)
+    cases = [(None, []), (None, [x for x in DEFAULT_PROGRAMS if x not in needs[short]]), ("auto", []), ("auto", ["ip6tables"])]
+    if short == "tproxy":
+        cases += [(None, ["iptables", "nft", "pfctl"]), (None, ["ip6tables"])]
+    for invoke, progs in cases:
+        env = {"programs": progs}
+        real = run_real(kern, plan.method, st_enc, plan.data(nl), [], env=env, invoke=invoke)
+        ctx.count("unsupported_method_runs")
+        ctx.case(("unsupported", plan.desc(), tuple(progs), invoke, st_enc))
+        if real["ncmds"] or real["final"] != st_enc or real["ready"] is not None or real["outcome"] != "FATAL":
+            # (not what C04 states: which method runs is not its subject — reported as a changed mechanism)
+            ctx.disagree("a method whose programs are not in PATH was not refused before anything was done",
+                         {"plan": plan.desc(), "PATH": progs, "invoke": invoke or short},
+                         {"outcome": real["outcome"], "ready": real["ready"], "commands": real["ncmds"]},
+                         "Fatal before READY, no command issued")
 
 
 # ---------------------------------------------------------------- the logging dimension
@@ -1465,6 +1797,14 @@ def oracle(ctx, kern, plan, info, real):
         rep["event"] = info["event"]
         rep["event_note"] = info.get("event_note", "") + "; outcome=%s crash=%s commands=%d of which tear-down=%d" % (
             real["outcome"], real.get("crash"), real["ncmds"], real["ncmds"] - real["fin_at"])
+    if info.get("env"):
+        rep["env"] = info["env"]
+        rep["env_note"] = env_note(info["env"]) + "; outcome=%s crash=%s commands=%d of which tear-down=%d" % (
+            real["outcome"], real.get("crash"), real["ncmds"], real["ncmds"] - real["fin_at"])
+    if info.get("invoke"):
+        rep["invoke"] = info["invoke"]
+    if info.get("rep_extra"):
+        rep.update(info["rep_extra"])
     if info.get("log"):
         rep["log"] = info["log"]
         lg = info["log"]
@@ -1477,6 +1817,12 @@ def oracle(ctx, kern, plan, info, real):
                            % (real["outcome"], real.get("crash"), real["ncmds"], real["ncmds"] - real["fin_at"]))
     fin_at = real["fin_at"]
     teardown_fault = any(k >= fin_at for k in info["faults"]) and real["ncmds"] > fin_at
+    if info.get("kind") == "udp-refused":
+        # the method refuses the plan before doing anything: whatever is there (even objects named for these ports) stays
+        if real["final"] != info["state"]:
+            ctx.violation("UDP asked of a method without UDP support: the helper changed the packet filter and did not undo it (%s)" % plan.method,
+                          dict(rep, final=real["final"][:600]))
+        return
     if info["cut"] < len(plan.header()):
         if real["ncmds"] != 0 or real["final"] != info["state"]:
             ctx.violation("commands issued although the dialogue was cut before GO", rep)
@@ -1521,7 +1867,7 @@ def oracle(ctx, kern, plan, info, real):
     tr = real["trace"]
     if plan.on6() and plan.on4() and not ("M:restore6" in tr and "M:restore4" in tr):
         ctx.violation("a failing tear-down command kept the other family's restore from running", rep)
-    hosts_seen = min(plan.hosts, max(0, info["cut"] - len(plan.header())))
+    hosts_seen = hosts_reached(plan, info["cut"], info.get("env"))
     if hosts_seen and "M:started" in tr and "M:hosts" not in tr:
         ctx.violation("a failing tear-down command kept the hosts file from being restored", rep)
     # which command failed?
@@ -1606,10 +1952,13 @@ def replay(ctx, rp):
             real = run_real(kern, plan.method, r["state"], plan.data(len(plan.header()))[: r["bytes"]], [])
             print("commands issued:", real["ncmds"])
             return bool(real["ncmds"])
+        if "signals" in r:
+            return c04_sig.replay(ctx, sys.modules[__name__], kern, plan, r)
         real = run_real(kern, plan.method, r["state"], plan.data(r["cut"]), r["faults"], snapshots=not r.get("event"),
-                        log=r.get("log"), event=r.get("event"))
-        info = {"plan": r["plan"], "cut": r["cut"], "faults": r["faults"], "state": r["state"], "kind": "replay",
-                "log": r.get("log"), "event": r.get("event")}
+                        log=r.get("log"), event=r.get("event"), env=r.get("env"), invoke=r.get("invoke"))
+        info = {"plan": r["plan"], "cut": r["cut"], "faults": r["faults"], "state": r["state"],
+                "kind": "udp-refused" if (plan.udp and plan.method != "tproxy") else "replay",
+                "log": r.get("log"), "event": r.get("event"), "env": r.get("env"), "invoke": r.get("invoke")}
         if r.get("event") and real["event_rc"] is not None:
             info["state_with_event"] = state_with_event(kern, r["state"], r["event"])
         before = len(ctx.violations)
